@@ -22,4 +22,9 @@ Definition svec_to_mat (x : list T) (r c : nat) : T :=
   if Nat.eqb r c then v else mul O v isqrt2.
 (** triangular_index(k) = k(k+3)/2 : position of the k-th diagonal entry *)
 Definition triangular_index (k : nat) : nat := (k * (k + 3) / 2)%nat.
+(** scaled_unit_shift: `for k in 0..n { z[triangular_index(k)] += α }` — the diagonal positions are
+    pairwise distinct, so the loop adds α exactly once at each of them *)
+Definition is_diag_index (n i : nat) : bool := existsb (fun k => Nat.eqb i (triangular_index k)) (seq 0 n).
+Definition psd_scaled_unit_shift (n : nat) (z : list T) (a : T) : list T :=
+  map (fun p => if is_diag_index n (fst p) then add O (snd p) a else snd p) (combine (seq 0 (length z)) z).
 End PSDIndex.
